@@ -1,4 +1,5 @@
 import VyxalModel.Lemmas.StackEffect
+import VyxalModel.Model.PopHelper
 import VyxalModel.Gen.Elements
 import VyxalModel.Gen.Modifiers
 /-!
@@ -56,5 +57,88 @@ theorem reduce_scan_modifiers_depth :
 example {α : Type} (pre : List α) (a b : α) (σ' : List α)
     (h : ∃ e ∈ Gen.elements, e.key = [43] ∧ ∃ body, e.body = some body ∧ RunL (classifyL body) (pre ++ [a, b]) σ') :
     True := trivial
+
+/-! ## the `pop` helper itself
+
+`stack_effect_sound` takes "a pop of `k` removes the top `k` entries" as the meaning of `pop(stack, k, ctx)`.  That meaning is
+proved here of a model that follows the loop of `helpers.pop` (`Model/PopHelper.lean`, tied to the real helper by the `pophelper`
+stream): with enough entries it removes exactly the top `k`, in pop order, reads no input and leaves everything below in place;
+under `retain_popped` (the `~` modifier) the stack is unchanged; on a short stack the missing values are inputs.
+-/
+open PopH
+
+theorem popLoop_enough {α : Type} (inp : Nat → α) : ∀ (k : Nat) (pre args : List α) (r : Nat), args.length = k →
+    popLoop inp k (pre ++ args) r = (args.reverse, pre, r) := by
+  intro k
+  induction k with
+  | zero =>
+    intro pre args r h
+    have : args = [] := List.eq_nil_of_length_eq_zero h
+    subst this; simp [popLoop]
+  | succ k ih =>
+    intro pre args r h
+    have hne : args ≠ [] := by intro e; subst e; simp at h
+    obtain ⟨init, x, rfl⟩ : ∃ init x, args = init ++ [x] := ⟨args.dropLast, args.getLast hne, (List.dropLast_concat_getLast hne).symm⟩
+    have hl : init.length = k := by simpa using h
+    have e1 : (pre ++ (init ++ [x])).getLast? = some x := by rw [← List.append_assoc]; simp
+    have e2 : (pre ++ (init ++ [x])).dropLast = pre ++ init := by rw [← List.append_assoc]; simp
+    simp only [popLoop, e1, e2, ih pre init r hl]
+    simp
+
+/-- **a pop of `k` from a stack with at least `k` entries**: exactly the top `k` leave, top first; everything below is the same
+    list; no input is read -/
+theorem pop_frame {α : Type} (inp : Nat → α) (reverse : Bool) (k : Nat) (pre args : List α) (h : args.length = k) :
+    (pop inp false reverse k (pre ++ args)).stack = pre ∧ (pop inp false reverse k (pre ++ args)).reads = 0 ∧
+    (pop inp false false k (pre ++ args)).popped = args.reverse := by
+  simp [pop, popLoop_enough inp k pre args 0 h]
+
+/-- under `retain_popped` the stack is left exactly as it was -/
+theorem pop_retain {α : Type} (inp : Nat → α) (reverse : Bool) (k : Nat) (pre args : List α) (h : args.length = k) :
+    (pop inp true reverse k (pre ++ args)).stack = pre ++ args := by
+  simp [pop, popLoop_enough inp k pre args 0 h]
+
+theorem popLoop_empty {α : Type} (inp : Nat → α) : ∀ (k r : Nat),
+    popLoop inp k [] r = ((List.range k).map (fun i => inp (r + i)), [], r + k) := by
+  intro k
+  induction k with
+  | zero => intro r; simp [popLoop]
+  | succ k ih =>
+    intro r
+    simp only [popLoop, List.getLast?_nil, ih (r + 1)]
+    refine Prod.ext ?_ (Prod.ext rfl (by simp; omega))
+    simp only [List.range_succ_eq_map, List.map_cons, List.map_map]
+    congr 1
+    · apply List.map_congr_left; intro i _; simp [Function.comp]; congr 1; omega
+
+/-- **a pop of `k` from a stack with only `m < k` entries**: the whole stack, top first, then the next `k − m` inputs in the
+    order they are delivered; the stack is left empty -/
+theorem pop_short {α : Type} (inp : Nat → α) (k : Nat) (st : List α) (h : st.length ≤ k) :
+    (pop inp false false k st).popped = st.reverse ++ (List.range (k - st.length)).map inp ∧
+    (pop inp false false k st).stack = [] ∧ (pop inp false false k st).reads = k - st.length := by
+  have gen : ∀ (m : Nat) (st : List α) (k : Nat), st.length = m → m ≤ k →
+      popLoop inp k st 0 = (st.reverse ++ (List.range (k - m)).map inp, [], k - m) := by
+    intro m
+    induction m with
+    | zero =>
+      intro st k hs _
+      have : st = [] := List.eq_nil_of_length_eq_zero hs
+      subst this
+      simpa using popLoop_empty inp k 0
+    | succ m ih =>
+      intro st k hs hk
+      obtain ⟨k', rfl⟩ : ∃ k', k = k' + 1 := ⟨k - 1, by omega⟩
+      have hne : st ≠ [] := by intro e; subst e; simp at hs
+      obtain ⟨init, x, rfl⟩ : ∃ init x, st = init ++ [x] := ⟨st.dropLast, st.getLast hne, (List.dropLast_concat_getLast hne).symm⟩
+      have hl : init.length = m := by simpa using hs
+      have := ih init k' hl (by omega)
+      simp only [popLoop, List.getLast?_append, List.getLast?_singleton, Option.some_or, List.dropLast_concat, this]
+      have e : k' + 1 - (m + 1) = k' - m := by omega
+      simp [e]
+  have := gen st.length st k rfl h
+  simp [pop, this]
+
+example : (pop (fun i => 100 + i) false false 2 [7, 8, 9]).stack = [7] ∧ (pop (fun i => 100 + i) false false 2 [7, 8, 9]).popped = [9, 8]
+    ∧ (pop (fun i => 100 + i) false false 3 [7]).popped = [7, 100, 101] ∧ (pop (fun i => 100 + i) true false 2 [7, 8, 9]).stack = [7, 8, 9] := by
+  decide
 
 end C09
